@@ -7,6 +7,7 @@ import (
 	"errors"
 	"fmt"
 	"net"
+	"strings"
 	"sync"
 	"sync/atomic"
 	"time"
@@ -29,18 +30,20 @@ const (
 )
 
 type c19Ctx struct {
-	c      cfg
-	mon    *monitor
-	life   *engineLife
-	state  atomic.Int32
-	keys   map[string]struct{}
-	kmu    sync.Mutex
-	evals  atomic.Int64
-	pend   sync.WaitGroup // Register result channels being awaited
-	ncMu   sync.Mutex
-	ncs    []net.Conn // connections handed to Register(conn), closed by the harness at the end of the life
-	hung   atomic.Int64
-	okRegs atomic.Int64
+	c           cfg
+	mon         *monitor
+	life        *engineLife
+	state       atomic.Int32
+	keys        map[string]struct{}
+	kmu         sync.Mutex
+	evals       atomic.Int64
+	pend        sync.WaitGroup // Register result channels being awaited
+	emfileDump  atomic.Bool
+	outstanding atomic.Int64 // registrations whose result is being awaited (each holds descriptors until it is decided)
+	ncMu        sync.Mutex
+	ncs         []net.Conn // connections handed to Register(conn), closed by the harness at the end of the life
+	hung        atomic.Int64
+	okRegs      atomic.Int64
 }
 
 func (x *c19Ctx) key(k string) {
@@ -79,8 +82,10 @@ func (x *c19Ctx) expectErr(call string, before, after int32, err error) {
 // awaitResult checks that a Register/Enroll channel yields exactly one value and is then closed.
 func (x *c19Ctx) awaitResult(call string, ch <-chan gnet.RegisteredResult, peerSide net.Conn) {
 	x.pend.Add(1)
+	x.outstanding.Add(1)
 	go func() {
 		defer x.pend.Done()
+		defer x.outstanding.Add(-1)
 		if peerSide != nil {
 			defer peerSide.Close()
 		}
@@ -166,6 +171,18 @@ func (x *c19Ctx) randomCall(r *vlib.Rand, e gnet.Engine) {
 		} else if fd != -1 {
 			res.Violate("C19 Dup returned an error together with a descriptor", fmt.Sprintf("(%d, %v)", fd, err), nil)
 		}
+		if err != nil && strings.Contains(err.Error(), "too many open files") && x.emfileDump.CompareAndSwap(false, true) {
+			// diagnosis aid: who holds the descriptors?
+			byClass := map[string]int{}
+			for _, fi := range vsys.Owned() {
+				byClass[fi.Class+"@"+fi.Site]++
+			}
+			kinds := map[string]int{}
+			for _, id := range fdTable() {
+				kinds[kindOf(id)]++
+			}
+			res.Note("c19: EMFILE inside a life: ledger %v; descriptor table %v; pending registrations %d", byClass, kinds, x.evals.Load())
+		}
 		x.expectErr("Dup", before, x.state.Load(), err)
 	case 3:
 		network, addr := "tcp", "127.0.0.1:1"
@@ -203,6 +220,9 @@ func (x *c19Ctx) randomCall(r *vlib.Rand, e gnet.Engine) {
 		if x.life == nil || x.life.dialNet == "unix" && before != stNever {
 			return
 		}
+		if x.outstanding.Load() > 400 {
+			return // a registration that hangs (the listed finding) keeps its descriptors: bound what is pending at a time
+		}
 		var addr net.Addr = &net.TCPAddr{IP: net.IPv4(127, 0, 0, 1), Port: 1}
 		if x.life != nil && x.life.dialAddr != "" {
 			addr, _ = net.ResolveTCPAddr(x.life.dialNet, x.life.dialAddr)
@@ -219,6 +239,9 @@ func (x *c19Ctx) randomCall(r *vlib.Rand, e gnet.Engine) {
 			ch, err := e.Register(gnet.NewNetConnContext(context.Background(), nil))
 			_ = ch
 			x.expectErr("Register(conn)", before, x.state.Load(), err)
+			return
+		}
+		if x.outstanding.Load() > 400 {
 			return
 		}
 		nc, derr := net.DialTimeout(x.life.dialNet, x.life.dialAddr, time.Second)
@@ -242,7 +265,7 @@ func (x *c19Ctx) randomCall(r *vlib.Rand, e gnet.Engine) {
 		ch, err := e.Register(gnet.NewNetConnContext(context.Background(), nc))
 		x.expectErr("Register(conn)", before, x.state.Load(), err)
 		if err == nil {
-			x.awaitResult("Register(conn)", ch, nil)
+			x.awaitResult("Register(conn)", ch, nc) // the engine works on its own duplicate: the caller's end is closed once the result is in
 			x.key("Register(conn)|given-connection-" + how)
 		} else {
 			_ = nc.Close()
